@@ -122,54 +122,29 @@ Proof. vm_compute. auto. Qed.
 
 (* ==== fault paths: one injected syscall failure (fsf lines) ==================== *)
 (* [fs_xtrace seg ops f]: the trace -- failed syscalls and per-call results
-   included -- the fs-layer model produces for the calls [ops] (any sequence,
-   invalid calls included) when the fault [f] = Some (class, k) makes the
-   (k+1)-th injectable syscall of that class fail.  [xdiscipline full]: the
-   discipline over such traces; [full = false] leaves out the two directory
-   clauses that the real code does not keep on fault paths (refuted below). *)
+   included -- the fs-layer model (fs/file.go as of b0161d2, metadb.go as of
+   862e6cb) produces for the calls [ops] (any sequence, invalid calls included)
+   when the fault [f] = Some (class, k) makes the (k+1)-th injectable syscall of
+   that class fail.  [xdiscipline true]: the whole discipline over such traces;
+   [xdiscipline false]: without the two directory clauses of Sync and Load. *)
 
 (* For ALL op sequences and ALL fault positions: a Delete reports nil only
    after a successful unlink of that name followed by a successful directory
    fsync; a Create only after a successful O_CREAT|O_EXCL open and a successful
    fallocate(0, 0, size) in the same call; a Sync only after a successful fsync
-   of the file in the same call; a Load only when wal-meta.db exists and got
-   its name by rename of a written, synced and closed tmp file. *)
+   of the file in the same call and with a successful directory fsync since
+   the file was created; a Load only when wal-meta.db exists, got its name by
+   rename of a written, synced and closed tmp file, and a successful directory
+   fsync followed the rename.  (Before b0161d2 / 862e6cb the two directory
+   clauses were refuted on the model and on the code: a Sync / Load that failed
+   in its directory part was retried without the directory fsync.) *)
+Theorem C07_fault_full_ok : forall seg ops f, xdiscipline true seg (fs_xtrace seg ops f) = true.
+Proof. exact fault_full_ok. Qed.
+Print Assumptions C07_fault_full_ok.
+
 Theorem C07_fault_core_ok : forall seg ops f, xdiscipline false seg (fs_xtrace seg ops f) = true.
 Proof. exact fault_core_ok. Qed.
 Print Assumptions C07_fault_core_ok.
-
-(* The statement with the directory clauses,
-     forall seg ops f, xdiscipline true seg (fs_xtrace seg ops f) = true
-   (Sync nil => a successful directory fsync followed the creation of the file;
-    Load nil => a successful directory fsync followed the rename)
-   is FALSE of the faithful model: C07_fault_sync_entry_refuted,
-   C07_fault_meta_dir_refuted.  What holds: it is true on every run in which no
-   Sync / Load failed in its directory part (after its file fsync / rename) --
-   every violation stems from such a failed call whose retry skips the
-   directory fsync -- and in particular on every fault-free run. *)
-Theorem C07_fault_full_ok_or_dir_failed : forall seg ops f,
-  xdiscipline true seg (fs_xtrace seg ops f) = true \/ dir_part_failed (fs_run_f seg ops f) = true.
-Proof. exact fault_full_ok_or_dir_failed. Qed.
-Print Assumptions C07_fault_full_ok_or_dir_failed.
-
-Theorem C07_fault_free_full_ok : forall seg ops, xdiscipline true seg (fs_xtrace seg ops None) = true.
-Proof. exact fault_free_full_ok. Qed.
-Print Assumptions C07_fault_free_full_ok.
-
-(* fs/file.go sets `new` before syncDir has succeeded: Create; Write; Sync whose
-   directory fsync fails (reported); the retried Sync reports nil although no
-   successful directory fsync ever followed the creation of the file *)
-Theorem C07_fault_sync_entry_refuted :
-  exists seg ops f, xdiscipline_res true seg (fs_xtrace seg ops f) = Some (10%nat, XVSyncEntryPending).
-Proof. exact sync_entry_refuted. Qed.
-Print Assumptions C07_fault_sync_entry_refuted.
-
-(* metadb.go: Load fails after the rename (directory open / fsync); the retry
-   finds the file, opens it and reports nil: no directory fsync after the rename *)
-Theorem C07_fault_meta_dir_refuted :
-  exists seg ops f, xdiscipline_res true seg (fs_xtrace seg ops f) = Some (8%nat, XVMetaDirNotSynced).
-Proof. exact meta_dir_refuted. Qed.
-Print Assumptions C07_fault_meta_dir_refuted.
 
 (* What acceptance means on the trace itself (any trace, not only the model's):
    a Delete that reports nil comes after a successful unlink of that name that
@@ -186,11 +161,23 @@ Theorem C07_fault_create_ok_sound : forall full seg t1 s t2,
 Proof. exact create_ok_sound. Qed.
 Print Assumptions C07_fault_create_ok_sound.
 
+(* a Sync that reports nil fsynced the file in the same call, and every
+   successful creation of that name was followed by a successful directory
+   fsync (or by an unlink / a later creation of the name) *)
 Theorem C07_fault_sync_ok_sound : forall full seg t1 s t2,
   xdiscipline full seg (t1 ++ XRet (FSync s) true :: t2) = true ->
-  exists a b, t1 = a ++ b /\ no_ret b /\ In (XOk (Fsync (Seg s))) b.
+  (exists a b, t1 = a ++ b /\ no_ret b /\ In (XOk (Fsync (Seg s))) b) /\
+  (full = true -> entry_dir_synced s t1).
 Proof. exact sync_ok_sound. Qed.
 Print Assumptions C07_fault_sync_ok_sound.
+
+(* a Load that reports nil comes after the rename of the tmp db onto
+   wal-meta.db and a successful directory fsync after that rename *)
+Theorem C07_fault_meta_ok_sound : forall full seg t1 t2,
+  xdiscipline full seg (t1 ++ XRet FMetaInit true :: t2) = true ->
+  exists a b, t1 = a ++ XOk (Rename MetaTmp Meta) :: b /\ (full = true -> In (XOk FsyncDir) b).
+Proof. exact meta_ok_sound. Qed.
+Print Assumptions C07_fault_meta_ok_sound.
 
 (* ---- non-vacuity of the fault theorems ---------------------------------------- *)
 (* Delete unlinks, cannot open the directory (EMFILE) and reports the error; the
@@ -230,9 +217,37 @@ Example C07_ex_fault_create_rejected :
   xdiscipline_res false 1024 [XOk (OpenExcl (Seg 0)); XFail (Fallocate (Seg 0) 0 0 1024); XRet (FCreate 0) true]
   = Some (2%nat, XVCreateIncomplete).
 Proof. vm_compute. reflexivity. Qed.
-(* the run of C07_fault_sync_entry_refuted does contain the Sync that failed in
-   its directory part, and its core discipline holds *)
-Example C07_ex_fault_sync_dir_failed :
-  dir_part_failed (fs_run_f 1024 ex_sync_ops ex_sync_fault) = true /\
-  xdiscipline false 1024 (fs_xtrace 1024 ex_sync_ops ex_sync_fault) = true.
-Proof. vm_compute. auto. Qed.
+(* b0161d2: Create; Write; a Sync whose directory fsync fails (reported); the
+   retried Sync fsyncs the directory again before it reports nil; the third
+   Sync is the file fsync only *)
+Example C07_ex_fault_sync_retry_syncs_dir :
+  fs_xtrace 1024 [FCreate 0; FWrite 0 0 16; FSync 0; FSync 0; FSync 0] (Some (SFsync, 1%nat)) =
+  [XOk (OpenExcl (Seg 0)); XOk (Fallocate (Seg 0) 0 0 1024); XRet (FCreate 0) true;
+   XOk (Pwrite (Seg 0) 0 16); XRet (FWrite 0 0 16) true;
+   XOk (Fsync (Seg 0)); XOpenDir true; XFail FsyncDir; XRet (FSync 0) false;
+   XOk (Fsync (Seg 0)); XOpenDir true; XOk FsyncDir; XRet (FSync 0) true;
+   XOk (Fsync (Seg 0)); XRet (FSync 0) true].
+Proof. vm_compute. reflexivity. Qed.
+(* what the code did before b0161d2 (retry = file fsync only, nil) is rejected *)
+Example C07_ex_fault_sync_entry_pending_rejected :
+  xdiscipline_res true 1024
+    [XOk (OpenExcl (Seg 0)); XOk (Fallocate (Seg 0) 0 0 1024); XRet (FCreate 0) true;
+     XOk (Pwrite (Seg 0) 0 16); XRet (FWrite 0 0 16) true;
+     XOk (Fsync (Seg 0)); XOpenDir true; XFail FsyncDir; XRet (FSync 0) false;
+     XOk (Fsync (Seg 0)); XRet (FSync 0) true] = Some (10%nat, XVSyncEntryPending).
+Proof. vm_compute. reflexivity. Qed.
+(* 862e6cb: a Load that cannot open the directory after the rename (EMFILE) is
+   retried through the "file exists" branch, which fsyncs the directory first *)
+Example C07_ex_fault_meta_retry_syncs_dir :
+  fs_xtrace 1024 [FMetaInit; FMetaInit] (Some (SOpenat, 1%nat)) =
+  [XOk (OpenCreat MetaTmp); XOk (Pwrite MetaTmp 0 0); XOk (Fdatasync MetaTmp); XOk (Close MetaTmp);
+   XOk (Rename MetaTmp Meta); XOpenDir false; XRet FMetaInit false;
+   XOpenDir true; XOk FsyncDir; XOk (OpenCreat Meta); XRet FMetaInit true].
+Proof. vm_compute. reflexivity. Qed.
+(* what the code did before 862e6cb (retry = open only, nil) is rejected *)
+Example C07_ex_fault_meta_dir_not_synced_rejected :
+  xdiscipline_res true 1024
+    [XOk (OpenCreat MetaTmp); XOk (Pwrite MetaTmp 0 0); XOk (Fdatasync MetaTmp); XOk (Close MetaTmp);
+     XOk (Rename MetaTmp Meta); XOpenDir false; XRet FMetaInit false;
+     XOk (OpenCreat Meta); XRet FMetaInit true] = Some (8%nat, XVMetaDirNotSynced).
+Proof. vm_compute. reflexivity. Qed.
